@@ -178,6 +178,9 @@ func gen(t *rapid.T) Case {
 	doc := genSpec(t)
 	c := Case{Spec: specgen.JSONBytes(doc)}
 	n := rapid.IntRange(3, 8).Draw(t, "nsteps")
+	// one history in four is an "autowired" project: every server generation names an implementation package, so that
+	// restapi/auto_configure_<app>.go (generator-owned, unlike configure_<app>.go) is regenerated across spec revisions
+	implPkgHistory = chance(t, "implpkg", 25)
 	// every history starts with a generation
 	first := genStep(t, "s0", doc)
 	c.Steps = append(c.Steps, first)
@@ -211,6 +214,9 @@ func gen(t *rapid.T) Case {
 	return c
 }
 
+// implPkgHistory is set by gen for the history being drawn (a function of the drawn values only).
+var implPkgHistory bool
+
 func genStep(t *rapid.T, l string, doc J) Step {
 	target := specgen.Pick(t, l+"_target", []string{"server", "server", "server", "client", "model", "support", "operation"})
 	s := Step{Kind: "generate", Target: target}
@@ -225,6 +231,9 @@ func genStep(t *rapid.T, l string, doc J) Step {
 		if chance(t, fmt.Sprintf("%s_opt%d", l, i), 18) {
 			s.Opts = append(s.Opts, o)
 		}
+	}
+	if target == "server" && implPkgHistory {
+		s.Opts = append(s.Opts, "--implementation-package=example.com/verifimpl")
 	}
 	if target == "operation" {
 		ops := specgen.Ops(doc)
